@@ -10,5 +10,6 @@ func moreGens() []struct {
 		fn   func() string
 	}{
 		{"Encoding.v", genEncoding}, // C18
+		{"Conv.v", genConv},         // C02
 	}
 }
